@@ -15,6 +15,18 @@ theorem intersection_param_sound (a0 ad b0 bd : V2 ℝ) (t0 t1 : ℝ)
     V2.add a0 (V2.smul t0 ad) = V2.add b0 (V2.smul t1 bd) := by
   rw [C06T.intersection_param_eq] at h; exact C06.intersectionParam_sound a0 ad b0 bd t0 t1 h
 
+/-- **How parallel is "parallel".**  With the cut-off constant read from the current source, a pair of lines whose raw
+    determinant `|bd × ad|` is at least 1e-11 is never refused: only pairs that are parallel to within the last few
+    digits of double precision (for direction and edge lengths of ordinary size) are.  The completeness clauses of the
+    correspondence judge crossings from a decade above this floor; a source that refuses more than this fails here. -/
+theorem intersection_param_refuses_only_below_1e_11 (a0 ad b0 bd : V2 ℝ)
+    (h : (1 : ℝ) / 10 ^ 11 ≤ |bd.x * ad.y - bd.y * ad.x|) : GenRs.intersection_param a0 ad b0 bd ≠ none := by
+  intro hn
+  have := (intersection_param_none_iff a0 ad b0 bd).mp hn
+  have hc : (detTol : ℝ) ≤ 1 / 10 ^ 11 := by
+    unfold detTol; rw [ofRatR]; norm_num [Gen.INTERSECT_DET_TOL_num, Gen.INTERSECT_DET_TOL_den]
+  linarith
+
 /-! ### "farthest projected vertex": the regenerated scan of `max_point_in_direction` -/
 
 /-- one step of the scan, as regenerated -/
